@@ -144,6 +144,25 @@ def audit_property(prop):
     return res
 
 
+def coqchk_property(prop):
+    """thorough tier: the independent checker re-checks the compiled theorem file and everything it depends on"""
+    key = 'coqchk-' + hashlib.sha256((model_hash() + prop).encode()).hexdigest()[:32]
+    got = cache_get(key)
+    if got is None:
+        rc, out = sh(['coqchk', '-o', '-silent', '-Q', '.', 'DW', 'DW.Props.' + prop], cwd=COQ, timeout=3000)
+        m = re.search(r'\* Axioms:\s*(.*?)\n\s*\n', out, re.S)
+        got = dict(rc=rc, axioms=(m.group(1).strip() if m else None),
+                   type_in_type='type-in-type: <none>' in out, unsafe_fix='unsafe (co)fixpoints: <none>' in out, positivity='positivity is assumed: <none>' in out,
+                   tail=out[-600:])
+        cache_put(key, got)
+    failures = []
+    if got['rc'] != 0:
+        failures.append('coqchk rejects DW.Props.%s: %s' % (prop, got['tail']))
+    elif got['axioms'] != '<none>' or not (got['type_in_type'] and got['unsafe_fix'] and got['positivity']):
+        failures.append('coqchk context summary of DW.Props.%s is not clean: axioms=%r' % (prop, got['axioms']))
+    return got, failures
+
+
 # ------------------------------------------------------------------ correspondence (tie A)
 def corpus_for(tier, seed):
     cases = corpus.quick_corpus(seed)
@@ -302,6 +321,11 @@ def tie_b(prop, cases, seed, tier, priority):
             st, pr = f.result()
             out[futs[f]] = st
             problems += pr
+    # C12, thorough: the default-feature binary once more under Miri, which checks every executed operation for UB
+    if prop == 'C12' and (tier == 'thorough' or os.environ.get('VERIF_MIRI') == '1'):
+        st, pr = tieb.run('default', cases, seed, 160, r'^(disc|inc|skip|skip_inner|basic|rand)/', None, priority, False, True)
+        out['default (Miri)'] = st
+        problems += pr
     # C13: the real observations must be identical under default / safe / nightly (and zeroize for std traits)
     if prop == 'C13':
         base = out.get('default', {}).get('_iobs', {})
@@ -482,6 +506,10 @@ def check(prop, tier, seed):
     else:
         audit = audit_property(prop)
     audit['failures'] += src_problems
+    chk = None
+    if ok and tier == 'thorough':
+        chk, fs = coqchk_property(prop)
+        audit['failures'] += fs
     for f in audit['failures']:
         violations.append((dict(kind='proof', property=prop, what=f, theorem_file='coq/Props/%s.v' % prop,
                                 replay_cmd='cd /verif/coq && make -f Makefile.coq && coqc -Q . DW Props/%s.v' % prop), False))
@@ -567,6 +595,7 @@ def check(prop, tier, seed):
             checker_cmd='make -C coq -f Makefile.coq (coqc, full .vo build) ; coqc -Q . DW Props/%s.v (statement pins + Print Assumptions)' % prop,
             trusted_base=TRUSTED_BASE,
             theorems=audit.get('theorems', []), nonvacuity_examples=audit.get('examples', []),
+            coqchk=({k: v for k, v in chk.items() if k != 'tail'} if chk else 'thorough tier only'),
             evaluations=stats['compared'], distinct_nontrivial=stats['accepted'],
             rule='corpus S1 (systematic), S2 (random, seeded), S3 (invalid); every case is expanded by the real macro code and by the '
                  'extracted Coq model in each feature configuration of the property and compared token for token; non-trivial = accepted by the macro',
